@@ -774,4 +774,121 @@ example : (BufferedSocket.recv_until (mnet 100) 10 ⟨[1], [], 10, some 5, 4⟩ 
 example : (BufferedSocket.recv_until (mnet 100) 10 ⟨[1], [], 10, some 5, 4⟩ [13, 10] none (some (some 2)) false
       ⟨[.chunk [2, 3], .chunk [13, 10]], false⟩).1 = .error .messageTooLong := by rfl
 
+/-! ## `peek`, `recv_close`, `recv` -/
+
+/-- **`BufferedSocket.peek`, as regenerated from the source, is the model's `peek`** (the generated `recv_size` is used
+    through its own tie theorem) -/
+theorem src_peek_eq_model (J : Int) (cfg : Cfg) (st : BufferedSocket.St Int) (w : NW) (size : Nat)
+    (targ : Option (Option Int)) (lfuel : Nat)
+    (hlate : w.late = false) (hto : TOk J (orDefault targ st.timeout)) (hrs : st.recvsize = (cfg.recvsize : Int))
+    (hpos : 0 < cfg.recvsize) (hf : measure (er w.script) + 2 ≤ lfuel) :
+    ∃ w', BufferedSocket.peek (mnet J) lfuel st (size : Int) targ w
+        = (outcome (callerFault w.script) (peek cfg size ⟨st.rbuf, er w.script⟩).1,
+           { st with rbuf := (peek cfg size ⟨st.rbuf, er w.script⟩).2.rbuf }, w') ∧
+      er (scriptAfter (peek cfg size ⟨st.rbuf, er w.script⟩).1 w') = (peek cfg size ⟨st.rbuf, er w.script⟩).2.script := by
+  unfold BufferedSocket.peek runMethod BufferedSocket.peek.body peek
+  by_cases hge : st.rbuf.length ≥ size
+  · have hgeI : (size : Int) ≤ (st.rbuf.length : Int) := by omega
+    refine ⟨w, ?_, ?_⟩
+    · simp [Blk.seq, Blk.ite, Blk.ret, finishMethod, outcome, len, hge, hgeI, sliceTo_nat]
+    · simp [hge, scriptAfter]
+  · have hgeI : ¬ (size : Int) ≤ (st.rbuf.length : Int) := by omega
+    obtain ⟨w', h1, h2⟩ := src_recv_size_eq_model J cfg st w size targ lfuel hlate hto hrs hpos hf
+    refine ⟨w', ?_, ?_⟩
+    · simp only [hge, if_false]
+      cases hm : recvSize cfg size ⟨st.rbuf, er w.script⟩ with
+      | mk r m =>
+        rw [hm] at h1
+        cases r <;>
+          simp [Blk.seq, Blk.ite, Blk.ret, Blk.skip, Blk.callm, Blk.assign, finishMethod, outcome, len, hgeI, h1]
+    · simp only [hge, if_false]
+      cases hm : recvSize cfg size ⟨st.rbuf, er w.script⟩ with
+      | mk r m =>
+        rw [hm] at h2
+        cases r <;> simpa [scriptAfter] using h2
+
+/-- **`BufferedSocket.recv_close`, as regenerated from the source, is the model's `recvClose`** with the `maxsize`
+    argument resolved as `Max.resolve` says -/
+theorem src_recv_close_eq_model (J : Int) (cfg : Cfg) (st : BufferedSocket.St Int) (w : NW)
+    (targ : Option (Option Int)) (mx : Max) (selfMax : Nat) (lfuel : Nat)
+    (hlate : w.late = false) (hto : TOk J (orDefault targ st.timeout)) (hrs : st.recvsize = (cfg.recvsize : Int))
+    (hmax : st.maxsize = (selfMax : Int)) (hpos : 0 < cfg.recvsize) (hf : measure (er w.script) + 2 ≤ lfuel) :
+    ∃ w', BufferedSocket.recv_close (mnet J) lfuel st targ (maxArg mx) w
+        = (outcome (callerFault w.script)
+             (recvClose cfg (mx.resolve Gen.RECV_LARGE_MAXSIZE selfMax) ⟨st.rbuf, er w.script⟩).1,
+           { st with rbuf := (recvClose cfg (mx.resolve Gen.RECV_LARGE_MAXSIZE selfMax) ⟨st.rbuf, er w.script⟩).2.rbuf }, w') ∧
+      er (scriptAfter (recvClose cfg (mx.resolve Gen.RECV_LARGE_MAXSIZE selfMax) ⟨st.rbuf, er w.script⟩).1 w')
+        = (recvClose cfg (mx.resolve Gen.RECV_LARGE_MAXSIZE selfMax) ⟨st.rbuf, er w.script⟩).2.script := by
+  have hmr := maxArg_resolve mx selfMax
+  generalize mx.resolve Gen.RECV_LARGE_MAXSIZE selfMax = m at hmr ⊢
+  unfold BufferedSocket.recv_close runMethod BufferedSocket.recv_close.body recvClose
+  obtain ⟨w', h1, h2⟩ := src_recv_size_eq_model J cfg st w (m + 1) targ lfuel hlate hto hrs hpos hf
+  have hcast : ((m : Int) + 1) = ((m + 1 : Nat) : Int) := by omega
+  refine ⟨w', ?_, ?_⟩
+  · cases hm : recvSize cfg (m + 1) ⟨st.rbuf, er w.script⟩ with
+    | mk r mm =>
+      rw [hm] at h1
+      push_cast at h1
+      rcases callerFault_of_raw w.script with ⟨ha, hb2⟩ | ⟨t, ha, hb2⟩ <;>
+      cases r <;>
+        simp [Blk.seq, Blk.ret, Blk.skip, Blk.callm, Blk.assign, Blk.tryExcept, Blk.raise, finishMethod, outcome, hmax, hmr,
+          h1, Exc.isConnectionClosed, hb2]
+  · cases hm : recvSize cfg (m + 1) ⟨st.rbuf, er w.script⟩ with
+    | mk r mm =>
+      rw [hm] at h2
+      cases r <;> simpa [scriptAfter] using h2
+
+/-- **`BufferedSocket.recv`, as regenerated from the source, is the model's `recv`** (`flags = 0`): the buffer first, then
+    ONE `sock.recv(self._recvsize)`, the surplus kept in `rbuf`; a `socket.timeout` becomes `Timeout`, another OSError of
+    the socket passes through -/
+theorem src_recv_eq_model (J : Int) (cfg : Cfg) (st : BufferedSocket.St Int) (w : NW) (size : Nat)
+    (targ : Option (Option Int)) (hrs : st.recvsize = (cfg.recvsize : Int)) :
+    ∃ w', BufferedSocket.recv (mnet J) st (size : Int) 0 targ w
+        = (outcome (callerFault w.script) (recv cfg size ⟨st.rbuf, er w.script⟩).1,
+           { st with rbuf := (recv cfg size ⟨st.rbuf, er w.script⟩).2.rbuf }, w') ∧
+      er (scriptAfter (recv cfg size ⟨st.rbuf, er w.script⟩).1 w') = (recv cfg size ⟨st.rbuf, er w.script⟩).2.script := by
+  unfold BufferedSocket.recv runMethod BufferedSocket.recv.body recv
+  by_cases hge : st.rbuf.length ≥ size
+  · have hgeI : (size : Int) ≤ (st.rbuf.length : Int) := by omega
+    refine ⟨w, ?_, ?_⟩
+    · simp [Blk.seq, Blk.ite, Blk.ret, Blk.assign, Blk.skip, finishMethod, outcome, len, hge, hgeI, sliceTo_nat, sliceFrom_nat]
+    · simp [hge, scriptAfter]
+  · have hgeI : ¬ (size : Int) ≤ (st.rbuf.length : Int) := by omega
+    by_cases hb : st.rbuf = []
+    · have hspec := netRecv_spec cfg.recvsize w.script
+      have hs0 : ¬ size = 0 := by intro h; apply hge; omega
+      obtain ⟨rb, sb, ms, tmo0, rsz⟩ := st
+      simp only at hrs hb
+      subst hb hrs
+      cases hsr : sockRecv cfg.recvsize (er w.script) with
+      | timeout r =>
+        rw [hsr] at hspec
+        obtain ⟨w', hw1, hw2, hw3⟩ := hspec
+        refine ⟨w', ?_, ?_⟩
+        · rcases callerFault_of_raw w.script with ⟨ha, hb2⟩ | ⟨t, ha, hb2⟩ <;>
+            simp [Blk.seq, Blk.ite, Blk.ret, Blk.assign, Blk.skip, Blk.call, Blk.tryExcept, Blk.raise, finishMethod, outcome, len,
+              hs0, truthy, mnet_settimeout, mnet_recv, hw1, ha, hb2, Exc.isSockTimeout]
+        · simp [hs0, scriptAfter, settle, hw3, hw2]
+      | data dd r =>
+        rw [hsr] at hspec
+        obtain ⟨w', hw1, hw2, hw3, hw4⟩ := hspec
+        refine ⟨w', ?_, ?_⟩
+        · by_cases hl : dd.length > size
+          · have hlI : (size : Int) < (dd.length : Int) := by omega
+            simp [Blk.seq, Blk.ite, Blk.ret, Blk.assign, Blk.skip, Blk.call, Blk.tryExcept, finishMethod, outcome, len,
+              hs0, truthy, mnet_settimeout, mnet_recv, hw1, hl, hlI, sliceTo_nat, sliceFrom_nat]
+          · have hlI : ¬ (size : Int) < (dd.length : Int) := by omega
+            simp [Blk.seq, Blk.ite, Blk.ret, Blk.assign, Blk.skip, Blk.call, Blk.tryExcept, finishMethod, outcome, len,
+              hs0, truthy, mnet_settimeout, mnet_recv, hw1, hl, hlI]
+        · by_cases hl : dd.length > size <;> simp [hs0, scriptAfter, hw2, hl]
+    · refine ⟨w, ?_, ?_⟩
+      · simp [Blk.seq, Blk.ite, Blk.ret, Blk.assign, Blk.skip, finishMethod, outcome, len, hge, hgeI, hb, truthy]
+      · simp [hge, hb, scriptAfter]
+
+/-- non-zero `flags`: `ValueError` before anything is touched (Model3.lean's `recvFlags`) -/
+theorem src_recv_flags (J : Int) (st : BufferedSocket.St Int) (w : NW) (size flags : Int)
+    (targ : Option (Option Int)) (hfl : flags ≠ 0) :
+    BufferedSocket.recv (mnet J) st size flags targ w = (.error .valueError, st, w) := by
+  simp [BufferedSocket.recv, runMethod, BufferedSocket.recv.body, Blk.seq, Blk.ite, Blk.assign, Blk.raise, finishMethod, hfl]
+
 end C12
